@@ -13,7 +13,7 @@ RULE = (
     "Non-trivial = at least one registration ended by a cause other than shutdown, or triggers overlapped an unacknowledged notification; distinct = distinct tuples of (registration type, reaction script, special event, trigger gap classes)"
 )
 ASSUMPTIONS = ["default TransportTuning", "the test resource derives from aiocoap.resource.ObservableResource and wraps the cancellation callback it hands to accept()"]
-REQUIRED_MONITORS = {"token_and_rising_observe": 300, "latest_state": 60, "end_cause": 300, "nothing_after_end": 300, "callback_once": 300, "count_returns": 200}
+REQUIRED_MONITORS = {"explicit_final_during_render": 20, "token_and_rising_observe": 300, "latest_state": 60, "end_cause": 300, "nothing_after_end": 300, "callback_once": 300, "count_returns": 200}
 
 KNOWN_KEYS = ("rst-to-non-notification-ignored", "queued-notification-sent-after-end")
 
@@ -65,6 +65,12 @@ def gen(r):
         prev_special = kind != "update"
     # a rendering that takes time (the handler reads its state, then awaits something): state changes can land
     # while a notification is being rendered and must still lead to a notification carrying them
+    late_special = False
+    if render_delay and triggers and r.random() < 0.35:
+        # an explicit final notification (marked last / unsuccessful) pushed while an earlier rendering may still be
+        # under way; it is the last trigger of the history, so nothing can coalesce it away
+        triggers[-1]["kind"] = r.choice(["last", "unsuccessful"])
+        late_special = True
     shutdown_at = t + r.choice([20.0, 150.0])
     slow = [o for o in observers if o["first"].startswith("slow")]
     if slow:
@@ -72,11 +78,12 @@ def gen(r):
         # rendering under way is done, so its instant is not the registration's end)
         for tr in triggers:
             tr["kind"] = "update"
+        late_special = False
     if slow and r.random() < 0.15:
         late = r.choice(slow)
         late["t_reg"] = shutdown_at - 0.7  # the context shuts down while this first rendering is under way
         late["special"] = None
-    return {"observers": observers, "triggers": triggers, "shutdown_at": shutdown_at, "render_delay": render_delay}
+    return {"observers": observers, "triggers": triggers, "shutdown_at": shutdown_at, "render_delay": render_delay, "late_special": late_special}
 
 
 def run_history(h, seed, rep, case):
@@ -387,10 +394,23 @@ def judge(h, box, res, rep, case):
             rep.violation("cancellation-callback-never/%s" % E[2], "the registration's cancellation callback never ran", wit(rid=rid, cause=E), case)
             return
         t_cb = mycb[0]["t"]
+        slack = 0.0
+        if h.get("late_special") and E[2] in ("last", "unsuccessful"):
+            # a rendering under way when the final notification was pushed is finished (and sent) first
+            slack = 2 * h["render_delay"] + 0.01
+            rep.monitor("explicit_final_during_render")
+            fin = [tr for tr in triggers if tr["kind"] == E[2] and abs(tr["t"] - E[0]) < 1e-9]
+            term = [e for e in mine if e.seq >= fin[0]["seq"] and (rc.opt1(e.msg, 6) is None or not (64 <= e.msg.code < 96))] if fin else []
+            if term and fin:
+                pl = term[0].msg.payload
+                want = b";ver=%d" % fin[0]["ver"]
+                if not pl.endswith(want):
+                    rep.violation("explicit-final-notification-lost", "the message that ended the registration is not the explicit final notification the resource pushed (a rendering that was under way went out marked as the end instead, and the final one was never sent)", wit(rid=rid, cause=E, terminating=term[0].brief(), pushed_version=fin[0]["ver"]), case)
+                    return
         if t_cb < E[0] - 1e-6:
             rep.violation("ended-without-listed-cause", "the registration ended at %r although none of the listed causes had occurred (first cause: %r)" % (t_cb, E), wit(rid=rid), case)
             return
-        ignored = t_cb > E[0] + 1e-6
+        ignored = t_cb > E[0] + slack + 1e-6
         if ignored:
             key = "rst-to-non-notification-ignored" if E[2] == "rst-non" else "end-cause-ignored/%s" % E[2]
             rep.violation(key, "the registration did not end when its ending cause (%s at t=%r) occurred; the cancellation callback ran only at t=%r" % (E[2], E[0], t_cb), wit(rid=rid, cause=E), case)
